@@ -1415,7 +1415,7 @@ def check_C13(run):
                   and any(RE_TASK_DIR.match(c) for c in p.split("/")[:-1])]
         if nested:
             reach["lookalike_nested_in_task_output"] = reach.get("lookalike_nested_in_task_output", 0) + 1
-        if any(p.startswith("archive-tmp") for p in tb):
+        if any(p.startswith(".archive-tmp") for p in tb):
             reach["staging_leftovers_present"] = reach.get("staging_leftovers_present", 0) + 1
         if "outside" in st.before:
             reach["symlink_to_outside_present"] = reach.get("symlink_to_outside_present", 0) + 1
